@@ -26,11 +26,13 @@ import (
 	"context"
 	"fmt"
 	"io"
+	"io/fs"
 	"log/slog"
 	"os"
 	"runtime"
 	"sync"
 	"sync/atomic"
+	"syscall"
 	"time"
 
 	"github.com/whoisnian/glb/logger"
@@ -51,6 +53,8 @@ type lsProbeWriter struct {
 	overlaps int32
 	mutated  int32
 	seqMode  int32 // 1: sequential re-rendering, just capture
+	errEvery int   // > 0: every errEvery-th Write fails with a "closed"/EPIPE error (after taking the bytes' record)
+	panicAt  int   // >= 0: that Write call panics (a destination with a bug; the caller recovers)
 	short    int   // > 0: a destination that takes at most this many bytes per call (n < len(p), io.ErrShortWrite)
 
 	mu     sync.Mutex
@@ -94,6 +98,15 @@ func (w *lsProbeWriter) Write(p []byte) (int, error) {
 	w.events = append(w.events, lsProbeEvent{enter: false, seq: seq, payload: cp})
 	w.mu.Unlock()
 	atomic.AddInt32(&w.inside, -1)
+	if w.panicAt >= 0 && seq == w.panicAt {
+		panic("verif: this destination panics in Write")
+	}
+	if w.errEvery > 0 && seq%w.errEvery == 1 {
+		if seq%2 == 0 {
+			return 0, fs.ErrClosed
+		}
+		return 0, &os.PathError{Op: "write", Path: "/var/log/app.log", Err: syscall.EPIPE}
+	}
 	if w.short > 0 && len(p) > w.short {
 		return w.short, io.ErrShortWrite // the record is still ONE Write: what to do about the rest is the destination's owner's business
 	}
@@ -210,8 +223,18 @@ func lsIdsIn(p []byte) []int {
 var lsLevels = []slog.Level{logger.LevelDebug, logger.LevelInfo, logger.LevelWarn, logger.LevelError, logger.LevelFatal}
 
 // lsDoLog performs one log call on the real code.
+var lsDeadCtx = func() context.Context {
+	c, cancel := context.WithCancel(context.Background())
+	cancel()
+	return c
+}()
+
 func lsDoLog(n *lsNode, op *lsOp) {
+	defer func() { recover() }() // a panicking destination: the caller goes on
 	ctx := context.Background()
+	if op.Rid%9 == 4 {
+		ctx = lsDeadCtx // logging on behalf of a request whose context is already cancelled: the record is written all the same
+	}
 	lv := slog.Level(op.Level)
 	as := drvBuildAttrs(op.Attrs)
 	switch op.Via {
@@ -390,7 +413,15 @@ func lsRunSystem(s *Stream, sys *lsSystem, idx int) {
 		defer runtime.GOMAXPROCS(runtime.GOMAXPROCS(sys.Procs))
 	}
 	kind := sys.Kind
-	w := &lsProbeWriter{}
+	w := &lsProbeWriter{panicAt: -1}
+	switch idx % 7 {
+	case 5: // a destination that fails now and then (rotation window, reader restarted): later records are still written
+		w.errEvery = 4
+		s.Count("system.failing-destination")
+	case 6: // a destination whose Write panics once (recovered by the caller, as net/http or Relay would)
+		w.panicAt = 3
+		s.Count("system.panicking-destination")
+	}
 	if idx%5 == 4 {
 		w.short = 96 // a capacity-limited destination
 		s.Count("system.short-writing-destination")
@@ -451,10 +482,10 @@ func lsRunSystem(s *Stream, sys *lsSystem, idx int) {
 	go func() { wg.Wait(); close(done) }()
 	select {
 	case <-done:
-	case <-time.After(120 * time.Second):
+	case <-time.After(30 * time.Second):
 		buf := make([]byte, 1<<16)
 		buf = buf[:runtime.Stack(buf, true)]
-		s.Violate("deadlock", "goroutines did not finish logging within 120 s", replay(map[string]any{"stacks": string(buf)}))
+		s.Violate("deadlock", "goroutines did not finish logging within 30 s (a log call never returns)", replay(map[string]any{"stacks": string(buf)}))
 		fmt.Fprintln(os.Stderr, "logsys: watchdog expired")
 		return
 	}
@@ -615,6 +646,15 @@ func runLogSys(cfg Cfg) {
 		sys := lsGenSystem(rng.Fork(), cfg, i, s)
 		sys.Procs = procs[(i/15)%len(procs)]
 		lsRunSystem(s, sys, i)
+		stuck := false
+		for _, v := range s.Violations {
+			if v.Kind == "deadlock" {
+				stuck = true
+			}
+		}
+		if stuck {
+			break // goroutines are stuck for good: later systems would only repeat the 30 s wait
+		}
 		if i < 2 && len(sys.Programs) > 0 && len(sys.Programs[0]) > 0 {
 			s.Sample(map[string]any{"kind": sys.Kind, "threshold": sys.Threshold, "goroutines": len(sys.Programs), "first_op": sys.Programs[0][0]})
 		}
@@ -623,6 +663,6 @@ func runLogSys(cfg Cfg) {
 	s.Notes = append(s.Notes,
 		"time fields are canonicalised on both sides (Logger methods stamp time.Now())",
 		"Handler.Handle has no level gate of its own; records below the threshold are logged through Logger methods only",
-		"Panic*/Fatal* are not called (they panic / exit by contract); LevelFatal records go through Log/Logf/LogAttrs",
+		"Fatal* are not called (they exit by contract); Panic/Panicf are called and recovered; every 7th system has a destination that fails every 4th Write, every 7th one whose 4th Write panics (recovered by the caller), every 5th a destination taking at most 96 bytes per call; one record in nine is logged with an already cancelled context",
 		"thorough runs the systems under GOMAXPROCS 1, 4, 16 and the default in turn; VERIF_RACE=1 builds the harness with -race")
 }
